@@ -286,6 +286,24 @@ CLAIMED['C18'] = (
     'ASSUMED one-line contracts over uninterpreted functions; HMAC is uninterpreted.' + TIERB_NOTE,
     'DESIGN.md section 6 C18')
 
+CLAIMED['C15'] = (
+    'Proof of the ACQUIRE mapping, for every state, selector pair and index: IkeSa.process_acquire (verified against the '
+    'trigger contract the Message-ID window relies on) ignores an index that no protect entry of the connection carries '
+    'without any change, only queues the trigger while an exchange is outstanding, and otherwise hands exactly one CHILD_SA '
+    'request to a request generator, built from the FIRST entry with that index: its proposal, mode and lifetime, and as '
+    'selectors the packet\'s own followed by the entry\'s (ghost observer of the generator argument).  BOUNDED (labelled, '
+    'not proved): the real Xfrm.create_policies / create_policy / flush_policies / flush_sas are run on a grid and the '
+    'datagrams decoded by the C oracle compiled from the UAPI headers -- per protect entry exactly one outbound policy '
+    'with index << 3 | XFRM_POLICY_OUT and one inbound and one forward policy with the configured selectors, protocol, '
+    'mode and tunnel endpoints; 288 C-encoded ACQUIRE events are parsed by the real code and the fields '
+    'IkeSaController.process_acquire reads are compared.',
+    'Not decided: IkeSaController.__init__ (flush, then policies for every connection) and close(), '
+    'IkeSaController.process_acquire (ctypes event objects: peer / connection lookup, re-use of an IKE_SA with the peer, '
+    'index >> 3) are outside the VC generator; the two request generators are ASSUMED contracts, so "negotiated with that '
+    'entry\'s selectors" is decided up to the hand-over.  (Seen: the `_replace` of the proposal without DH transforms in '
+    'process_acquire discards its result.)' + TIERB_NOTE,
+    'DESIGN.md section 6 C15')
+
 NA_REASON = {
     'C09': 'not decided: collisions, absence of deadlock and agreement of the two endpoints after quiescence are statements '
            'over every interleaving of two state machines, i.e. over histories of the eight exchange handlers; contracts '
@@ -293,11 +311,6 @@ NA_REASON = {
            'per-function clauses that bear on C09 are proved under C08 / C13 (_check_in_states; a handled response leaves '
            'no request-outstanding state without an armed request; Inv(IkeSa) preservation by the Message-ID window).  '
            'No other technique was substituted.',
-    'C15': 'not decided: start-up flush / policy installation and the mapping of kernel ACQUIREs run through ctypes '
-           'request builders and ctypes event objects, which the VC generator does not model; IkeSaController.__init__ and '
-           'IkeSa.process_acquire were not brought under contract in the time available.  Only the bounded builder / parser '
-           'items of C14 (bounded-create-policies: three policies per protect entry with index << 3 | OUT, selectors, '
-           'protocol, mode, endpoints; bounded-flush; bounded-parse-acquire) touch it, and they are counted under C14.',
 }
 NOT_YET ='not yet claimed: contracts for this property are still being brought under the verifier (DESIGN.md section 6)'
 
